@@ -395,3 +395,17 @@ T('c03-twin-sqrt-maximum', ['C03', 'C02', 'C11'], 'svd.py', "    w[w < 0] = 0.\n
 T('c01-twin-mean-floatprod', 'C01', 'act_one.py', None, None,
   edits=[("            p = np.ones(k) / k if norm else np.ones(k)", "            p = np.ones(k)"),
          ("    return Z[0, 0]\n\n\ndef norm", "    return Z[0, 0] / np.prod(np.asarray(teneva.shape(Y), dtype=float)) if (norm and P is None) else Z[0, 0]\n\n\ndef norm")])
+
+
+# ------------------------------------------------------------------ round f rules
+M('c02-cap-npint-dropped', 'C02', 'transformation.py', "    d = len(Y)\n\n    if orth:\n        if use_stab:", "    d = len(Y)\n    r = r if teneva._is_num(r) else 1.E+12\n\n    if orth:\n        if use_stab:")
+T('c02-twin-cap-int', 'C02', 'transformation.py', "    d = len(Y)\n\n    if orth:\n        if use_stab:", "    d = len(Y)\n    r = int(r)\n\n    if orth:\n        if use_stab:")
+M('c12-sum-scalar-bounds', 'C12', 'func.py', None, None,
+  edits=[("    a, b, n = teneva.grid_prep_opts(a, b, n, d)\n\n    if kind == 'cheb':\n        p = 2. / (1 - np.arange(0, n_max, 2)**2)", "    h = (np.asanyarray(b, dtype=float) - np.asanyarray(a, dtype=float)) / 2.\n\n    if kind == 'cheb':\n        p = 2. / (1 - np.arange(0, n_max, 2)**2)"),
+         ("    for ak, bk, y, nk in zip(a, b, A, n):\n        v = v @ (p[:(nk + 1)//2] @ y[:, ::2])\n        v *= (bk - ak) / 2.\n\n    return v.item()", "    for y, nk in zip(A, n):\n        v = v @ (p[:(nk + 1)//2] @ y[:, ::2])\n\n    return v.item() * np.prod(h)")])
+M('c16-mulscalar-skip-first', 'C16', 'act_two.py', "        if use_stab:\n            v, p = teneva.core_stab(v, p)", "        if use_stab and i > 0:\n            v, p = teneva.core_stab(v, p)")
+M('c18-gridflat-lru', ['C18', 'C09'], 'grid.py', None, None,
+  edits=[("import itertools\nimport numpy as np\n", "import functools\nimport itertools\nimport numpy as np\n"),
+         ("        return np.arange(int(n))\n\n    d = len(n)\n    I = [np.arange(k).reshape(1, -1) for k in n]", "        return np.arange(int(n))\n\n    return _grid_flat(tuple(n))\n\n\n@functools.lru_cache(maxsize=64)\ndef _grid_flat(n):\n    d = len(n)\n    I = [np.arange(k).reshape(1, -1) for k in n]")])
+M('c01-add-int-prealloc', ['C01', 'C15'], 'act_two.py', "            Z1 = np.zeros([r1_l, k, r2_r])\n            Z2 = np.zeros([r2_l, k, r1_r])\n            L1 = np.concatenate([G1, Z1], axis=2)\n            L2 = np.concatenate([Z2, G2], axis=2)\n            G = np.concatenate([L1, L2], axis=0)", "            G = np.zeros_like(G1, shape=[r1_l + r2_l, k, r1_r + r2_r])\n            G[:r1_l, :, :r1_r] = G1\n            G[r1_l:, :, r1_r:] = G2")
+T('c01-twin-add-float-prealloc', ['C01', 'C15', 'C11'], 'act_two.py', "            Z1 = np.zeros([r1_l, k, r2_r])\n            Z2 = np.zeros([r2_l, k, r1_r])\n            L1 = np.concatenate([G1, Z1], axis=2)\n            L2 = np.concatenate([Z2, G2], axis=2)\n            G = np.concatenate([L1, L2], axis=0)", "            G = np.zeros([r1_l + r2_l, k, r1_r + r2_r])\n            G[:r1_l, :, :r1_r] = G1\n            G[r1_l:, :, r1_r:] = G2")
